@@ -631,6 +631,8 @@ PROPS = {
             {"bin": "d31_nsec3_scan_long_salt_hash", "crate": "replay_net", "finding": "D31"},
             {"bin": "d33_zonefile_quoted_string_token", "crate": "replay_net", "finding": "D33"},
             {"bin": "d16_zonefile_txt_at_eof", "crate": "replay_net", "finding": "D16"},
+            {"bin": "d46_scan_decimal_overflow", "crate": "replay_net", "finding": "D46"},
+            {"bin": "d47_unknown_marker_swallows_delimiter", "crate": "replay_net", "finding": "D47"},
         ],
         "explanation": "the totality half of the statement, for the tokenizer every zone-file read goes through "
                        "(zonefile/inplace.rs::SourceBuf, real text): next_item (white space, parentheses, comments, line ends, quotes) "
